@@ -46,6 +46,8 @@ Inductive action :=
 | IterBody | StartResponse | StartResponseExc | IterClose | NextChunk
 | FormatExcTb | ClearTb | BareErrorTrap | EmptyIter | ErrorIter
 | BindIr | RecordUri
+| ServerNext            (* the server asks for the next chunk; "raises" StopIteration when it loses interest *)
+| ServerCloseAgain      (* the server calls close() once more; "raises" StopIteration when it does not *)
 | Other.
 
 Inductive fname :=
@@ -95,8 +97,8 @@ Fixpoint find_handler (hs : list (pat * stmt)) (e : exn) : option stmt :=
   | (p, h) :: r => if matches p e then Some h else find_handler r e
   end.
 
-(** The environment: everything the skeleton abstracts from.  [e_act t a] is
-    what the [t]-th step does when it is action [a] (None = succeeds);
+(** The environment: everything the skeleton abstracts from.  [e_act n a] is
+    what the [n]-th execution (counting from 0) of action [a] does (None = succeeds);
     [e_cond t f] the value of an environment-determined condition. *)
 Record env := Env {
   e_act : nat -> action -> option exn;
@@ -117,6 +119,9 @@ Record fin := Fin {
   sr_exc : bool;                                  (* a call with exc_info happened *)
   unexp : bool;                                   (* an unexpected Exception was raised while processing *)
   trap_outside : bool;                            (* the trapper formatted a traceback while no request was being served *)
+  redir_in_error : bool;                          (* a callback answered the unexpected failure with an HTTPRedirect (handle_error honours it) *)
+  iterating : bool;                               (* _TrappedResponse.started_response: __iter__ was called *)
+  init_trapped : bool;                            (* trap() replaced the application's result by the bare error list *)
 }.
 
 (** identities: request objects, serving slot, closed flags *)
@@ -139,11 +144,21 @@ Record state := St {
   sfin : fin;
 }.
 
-Definition init_fin : fin := Fin 0 false false false false false None 0 false 0 false false false.
+Definition init_fin : fin := Fin 0 false false false false false None 0 false 0 false false false false false false.
 Definition init_ids : ids := Ids 1 0 0 0 0 0 [].
 Definition init_state : state := St 0 [] [] [] init_ids init_fin.
 
 Definition memZ (x : Z) (l : list Z) : bool := existsb (Z.eqb x) l.
+
+Definition action_eq_dec : forall a b : action, {a = b} + {a <> b}.
+Proof. decide equality. decide equality. Defined.
+
+(** how often action [a] was executed so far *)
+Fixpoint occ (a : action) (j : list (Z * action)) : nat :=
+  match j with
+  | [] => O
+  | (_, b) :: r => (if action_eq_dec a b then 1 else 0) + occ a r
+  end.
 
 Definition upd_tick (st : state) : state :=
   St (S (tick st)) (journal st) (raised_log st) (sr_calls st) (sid st) (sfin st).
@@ -155,7 +170,8 @@ Definition with_self (r : Z) (st : state) : state :=
 
 Definition fin_with_cur (e : option exn) (f : fin) : fin :=
   Fin (resp_status f) (resp_taint f) (v_body_taint f) (v_r_taint f) (v_tb_taint f) (v_b_taint f) e
-      (out_status f) (out_taint f) (sr_plain f) (sr_exc f) (unexp f) (trap_outside f).
+      (out_status f) (out_taint f) (sr_plain f) (sr_exc f) (unexp f) (trap_outside f) (redir_in_error f)
+      (iterating f) (init_trapped f).
 Definition with_cur (e : option exn) (st : state) : state :=
   St (tick st) (journal st) (raised_log st) (sr_calls st) (sid st) (fin_with_cur e (sfin st)).
 
@@ -167,7 +183,8 @@ Definition log_action (a : action) (st : state) : state :=
     iterator and the on_end_request hooks (which run after the response was produced) *)
 Definition processing (a : action) : bool :=
   match a with
-  | LogAccess | IterClose | RunHooks OnEndRequest | StartResponse | StartResponseExc => false
+  | LogAccess | IterClose | RunHooks OnEndRequest | StartResponse | StartResponseExc
+  | ServerNext | ServerCloseAgain => false
   | _ => true
   end.
 Definition is_unexpected (a : action) (e : exn) : bool :=
@@ -175,7 +192,8 @@ Definition is_unexpected (a : action) (e : exn) : bool :=
 
 Definition fin_raise (a : action) (e : exn) (f : fin) : fin :=
   Fin (resp_status f) (resp_taint f) (v_body_taint f) (v_r_taint f) (v_tb_taint f) (v_b_taint f) (cur_exn f)
-      (out_status f) (out_taint f) (sr_plain f) (sr_exc f) (unexp f || is_unexpected a e) (trap_outside f).
+      (out_status f) (out_taint f) (sr_plain f) (sr_exc f) (unexp f || is_unexpected a e) (trap_outside f)
+      (redir_in_error f) (iterating f) (init_trapped f).
 Definition ids_raise (e : exn) (i : ids) : ids :=
   Ids (next_req i) (pending_req i) (serving i) (self_req i)
       (match e with XInternalRedirect => serving i | _ => last_ir_req i end) (ir_req i) (closed i).
@@ -201,7 +219,16 @@ Definition sat2 (z : Z) : Z := if z <? 2 then z + 1 else 2.
     the class default); [showtb]: request.show_tracebacks; [e5]: the HTTPError being handled has a 5xx code *)
 Definition fin_effect (showtb sz e5 : bool) (a : action) (f : fin) : fin :=
   let mk rs rt vb vr vt vbb os ot sp se to :=
-      Fin rs rt vb vr vt vbb (cur_exn f) os ot sp se (unexp f) to in
+      Fin rs rt vb vr vt vbb (cur_exn f) os ot sp se
+          (match a with LoadServing => false | _ => unexp f end)      (* a new request object starts clean *)
+          to
+          (match a with
+           | LoadServing => false
+           | SetResponseOfExc => redir_in_error f || (unexp f && match cur_exn f with Some XHTTPRedirect => true | _ => false end)
+           | _ => redir_in_error f
+           end)
+          (match a with ServerNext => true | _ => iterating f end)
+          (match a with ErrorIter => true | _ => init_trapped f end) in
   let resp rs rt := mk rs rt (v_body_taint f) (v_r_taint f) (v_tb_taint f) (v_b_taint f)
                        (out_status f) (out_taint f) (sr_plain f) (sr_exc f) (trap_outside f) in
   let vars vb vr vt vbb to := mk (resp_status f) (resp_taint f) vb vr vt vbb
@@ -247,6 +274,9 @@ Definition eval_flag (E : env) (st : state) (f : flag) : bool :=
   | FThrowErrors => p_throw E
   | FShowTracebacksReq => p_showtb E
   | FShowTracebacksServing => if serving (sid st) =? 0 then true else p_showtb E
+  | FStartedResponse => iterating (sfin st)
+  | FResponseHasClose => negb (init_trapped (sfin st))
+  | FErrorResponseSet => true       (* request.error_response keeps a callable (by default HTTPError(500).set_response) *)
   | _ => e_cond E (tick st) f
   end.
 
@@ -283,7 +313,7 @@ Section Exec.
         | SetClosed => (Normal, effect E a (log_action a st))     (* an attribute store: cannot fail *)
         | _ =>
           let st1 := log_action a st in
-          match e_act E (tick st) a with
+          match e_act E (occ a (journal st)) a with
           | None => (Normal, effect E a st1)
           | Some e => (Raised e, log_raise a e st1)
           end
